@@ -26,7 +26,7 @@ class EscapeSweep(subcheck.Sweep):
     header = "From VF Require Import Base.Prelude Model.Html Corr.HtmlCorr.\nOpen Scope N_scope.\n"
     footer = ("Definition mism := Eval vm_compute in eids_where emismatch cases.\nPrint mism.\n"
               "Definition viol := Eval vm_compute in eids_where violates_c16e cases.\nPrint viol.\n")
-    shards = 8
+    shards = 16
 
     def env(self, tier, attempt):
         n = 700 if tier == "quick" else 6000
